@@ -32,7 +32,7 @@ def gen_docs(ctx):
     docs = []
     for _ in range(1200 if ctx.tier == 'quick' else 20000):
         stmts = gendoc.gen_program(rng)
-        text, wants = gendoc.render_layout(rng, stmts)
+        text, wants = gendoc.render_layout(rng, stmts, terminators=True)
         if rng.random() < 0.15 and "'''" not in text and '"""' not in text:
             # (not in docstrings with multi-line string literals: cutting a string-body line in two leaves text LEFT of the prompt
             # column, which is not a well-formed docstring -- the parser drops such characters, see DESIGN A.6)
@@ -63,6 +63,17 @@ def same_line(actual, shown):
     return a == b or (b.startswith('... ') and b[4:].strip() == a) or (b == '...' and a == '')
 
 
+def shown_source(p, prefix):
+    """the source lines of a part that its display holds.  With prompts: every line (orig_lines).  Without prompts the display is the
+    part's source TEXT, and an empty LAST source line (the bare '...' / '>>>' that closes a block in front of the output) has no text
+    of its own in it: the property asks for every line once and in order of the display WITH prompts, and for right numbers on
+    whatever is displayed -- so that one empty line may be absent there, the numbers of all other lines are still checked"""
+    lines = list(p.orig_lines if prefix else p.exec_lines)
+    if not prefix and lines and lines[-1] == '':
+        lines.pop()
+    return lines
+
+
 def check_doc(doc, lineno):
     """-> (requests for the model, impl texts, problems)"""
     from xdoctest import doctest_example, parser
@@ -89,7 +100,7 @@ def check_doc(doc, lineno):
                 shown = t.split('\n')
                 exp = []
                 for p in ex._parts:
-                    exp += list(p.orig_lines if prefix else p.exec_lines)
+                    exp += shown_source(p, prefix)
                     if want and p.want:
                         exp += common.srclines(p.want)
                 if mode == 'none':
@@ -100,7 +111,7 @@ def check_doc(doc, lineno):
                     start = lineno if offset else 1
                     k = 0
                     for p in ex._parts:
-                        src = list(p.orig_lines if prefix else p.exec_lines)
+                        src = shown_source(p, prefix)
                         for j, l in enumerate(src):
                             m = NUM.match(shown[k]) if k < len(shown) else None
                             if not m or m.group(2) != l:
@@ -210,7 +221,7 @@ def file_relative(ctx):
             bodies = []
             for ind in (8, 4):
                 stmts = gendoc.gen_program(rng, n=rng.randint(1, 4))
-                text, _w = gendoc.render_layout(rng, stmts, google=rng.random() < 0.4)
+                text, _w = gendoc.render_layout(rng, stmts, google=rng.random() < 0.4, terminators=True)
                 pre = []
                 r = rng.random()
                 if r < 0.35:
